@@ -449,6 +449,10 @@ func registerSyncStubs(w *World) {
 		return NilIface
 	}
 
+	// strings are immutable values in the engine: a clone is the string itself
+	for _, n := range []string{"strings.Clone", "internal/stringslite.Clone", "bytes.Clone"} {
+		S[n] = func(in *Interp, fn *ssa.Function, a []Value) Value { return a[0] }
+	}
 	S["reflect.DeepEqual"] = func(in *Interp, fn *ssa.Function, a []Value) Value {
 		return in.deepEqual(a[0], a[1], 0)
 	}
